@@ -117,6 +117,7 @@ def build_driver():
     """Re-extract and rebuild the OCaml driver when the model's .vo files changed."""
     os.makedirs(BUILD + "/extract", exist_ok=True)
     deps = ["%s/theories/%s.vo" % (COQ, m) for m in MODEL_VS] + [COQ + "/gen/Tables.vo", COQ + "/extract/Extract.v", VERIF + "/ocaml/driver.ml"]
+    deps += [COQ + "/theories/Cost/%s.vo" % m for m in ("CostBase", "CostHtml5", "CostXss", "CostSqliLex", "CostSqliFold")]
     if not newer(deps, BUILD + "/driver"):
         return True, ""
     rc, out = sh("timeout 1200 coqc -Q %s/theories LI -Q %s/gen LIGen %s/extract/Extract.v" % (COQ, COQ, COQ), cwd=BUILD + "/extract", timeout=1300)
